@@ -46,6 +46,20 @@ CLAIMS['C08'] = ('proof',
     COMPILE_NOTE + ' Termination assumes a finite universe U of module names the sources can mention (ghost set; the '
     'symbol-table model promises imports lie in U) - with infinitely many distinct names no work-list algorithm '
     'terminates. Inner for-loops iterate over sequences their bodies do not modify.', '5 C07-C10,C19')
+CLAIMS['C12'] = ('other',
+    'No-hidden-state and no-hash-seed obligations on the real functions: SmiV2Parser.parse resets the lexer on every exit '
+    '(normal and exceptional) and SmiV2Lexer.reset builds a fresh lexer object; both genCode functions are executed with '
+    'every per-module field unconstrained on entry and the invariant at the head of the declaration loop says each one '
+    'was re-initialised before it is read (_out, _oids, _rows, _cols, _importMap, _seenSyms, _postponedSyms, _parentOids, '
+    '_symsOrder, _moduleRevision, _moduleIdentityOid, _enterpriseOid, _complianceOids, fakeidx) and that the summary '
+    'collections handed out are fresh objects; loops whose effect depends on the visiting order (symbol lists of the '
+    'imports record, the unknown-parent check) are proved to iterate a sorted sequence, not a set; getBaseType leaves '
+    'the symbol table unchanged. Found and fixed by these obligations: D1, D5, D5b, D6, D17, D22, D34.',
+    'Not decided (argued only, hence level other): that re-running genImports on the tree it already rewrote in place '
+    'yields the same result; that the order in which SymtableCodeGen.genImports visits a set cannot be observed (it only '
+    'fills a dict whose values do not depend on it); MibCompiler.compile keeps no state on the instance (it assigns '
+    'locals only - not stated as a frame obligation); scripts/mibcopy.py. Set iteration is taken to be the only '
+    'hash-dependent behaviour of CPython (dict order is insertion order). Trusted: PLY lexer object construction.', '5 C12')
 CLAIMS['C13'] = ('proof',
     'FileWriter.putData, PyFileWriter.putData and CallbackWriter.putData are executed symbolically against an OS model '
     'in which every system call may fail (and os.write may fall short) adversarially; atomicity, temp-file cleanup, '
